@@ -274,14 +274,17 @@ func (r *result) armInstant(ctx context.Context, wg *sync.WaitGroup, e *endpoint
 		str := e.readStr
 		r.call(wg, e, "read", func() (int, error) { return str.Read(make([]byte, 16)) })
 	}
-	if has(b, "accept") {
-		r.call(wg, e, "accept", func() (int, error) { _, err := e.conn.AcceptStream(ctx); return 0, err })
-	}
-	if has(b, "acceptuni") {
-		r.call(wg, e, "acceptuni", func() (int, error) { _, err := e.conn.AcceptUniStream(ctx); return 0, err })
-	}
-	if has(b, "dgram") {
-		r.call(wg, e, "dgram", func() (int, error) { d, err := e.conn.ReceiveDatagram(ctx); return len(d), err })
+	// several goroutines may block in the same call: every one of them has to be woken
+	for k := 0; k < max(e.side.Mult, 1); k++ {
+		if has(b, "accept") {
+			r.call(wg, e, "accept", func() (int, error) { _, err := e.conn.AcceptStream(ctx); return 0, err })
+		}
+		if has(b, "acceptuni") {
+			r.call(wg, e, "acceptuni", func() (int, error) { _, err := e.conn.AcceptUniStream(ctx); return 0, err })
+		}
+		if has(b, "dgram") {
+			r.call(wg, e, "dgram", func() (int, error) { d, err := e.conn.ReceiveDatagram(ctx); return len(d), err })
+		}
 	}
 }
 
@@ -442,11 +445,13 @@ func (r *result) drain(ctx context.Context, wg *sync.WaitGroup, e *endpoint, dea
 func (r *result) armBlocking(ctx context.Context, wg *sync.WaitGroup, e *endpoint) {
 	r.armInstant(ctx, wg, e)
 	b := e.side.Blocked
-	if has(b, "open") {
-		r.call(wg, e, "open", func() (int, error) { _, err := e.conn.OpenStreamSync(ctx); return 0, err })
-	}
-	if has(b, "openuni") {
-		r.call(wg, e, "openuni", func() (int, error) { _, err := e.conn.OpenUniStreamSync(ctx); return 0, err })
+	for k := 0; k < max(e.side.Mult, 1); k++ {
+		if has(b, "open") {
+			r.call(wg, e, "open", func() (int, error) { _, err := e.conn.OpenStreamSync(ctx); return 0, err })
+		}
+		if has(b, "openuni") {
+			r.call(wg, e, "openuni", func() (int, error) { _, err := e.conn.OpenUniStreamSync(ctx); return 0, err })
+		}
 	}
 }
 
